@@ -85,7 +85,7 @@ impl Backend {
 @wrapexpr 1 `self.publish_diagnostics_for_file(&uri, &file_path)` => `self.vp_publish_on_change(&uri, &file_path, Ghost(db0), Ghost(change.text@))` with fn vp_publish_on_change(&self, uri: &Uri, file_path: &PathBuf, Ghost(db0): Ghost<FixtureDatabase>, Ghost(txt): Ghost<Seq<char>>) requires analyze_file_post(db0, self.fixture_db, pbv(file_path), txt)
 @sig
     requires (uri_path(params.text_document.uri) is Some && params.content_changes@.len() > 0)
-        ==> analyze_pre(old(self).fixture_db, uri_path(params.text_document.uri)->0, params.content_changes@[0].text@),
+        ==> analyze_pre(old(self).fixture_db, uri_path(params.text_document.uri)->0, params.content_changes@.last().text@),
     ensures did_change_post(*old(self), *final(self), params.text_document.uri, params.content_changes@),
 @start
     let ghost db0 = self.fixture_db;
@@ -117,7 +117,7 @@ impl Backend {
 @wrapexpr 1 `self.publish_diagnostics_for_file(&uri, &file_path)` => `self.vp_publish_on_c2(&uri, &file_path, Ghost(db0))` with fn vp_publish_on_c2(&self, uri: &Uri, file_path: &PathBuf, Ghost(db0): Ghost<FixtureDatabase>) requires self.fixture_db.version() == db0.version()
 @sig
     requires (uri_path(params.text_document.uri) is Some && params.content_changes@.len() > 0)
-        ==> analyze_pre(old(self).fixture_db, uri_path(params.text_document.uri)->0, params.content_changes@[0].text@),
+        ==> analyze_pre(old(self).fixture_db, uri_path(params.text_document.uri)->0, params.content_changes@.last().text@),
 @start
     let ghost db0 = self.fixture_db;
 @*/
